@@ -682,6 +682,35 @@ func ruleOptionDefaulting(c *Ctx, rule string) {
 						isErrTest = true // Expect*/checkState results
 					}
 				}
+				// a loop-continuation flag fed by constants and decoder results
+				// (`for more := true; more; more = dec.SP()`) is input-driven,
+				// not a mode
+				if ph, ok := ifi.Cond.(*ssa.Phi); ok {
+					inputOnly := true
+					seenL := map[ssa.Value]bool{}
+					var leaves func(v ssa.Value)
+					leaves = func(v ssa.Value) {
+						if seenL[v] {
+							return
+						}
+						seenL[v] = true
+						switch x := v.(type) {
+						case *ssa.Const:
+						case *ssa.Phi:
+							for _, e := range x.Edges {
+								leaves(e)
+							}
+						default:
+							if cl, _ := callOf(v); cl == nil || !isDecoderMethodCall(cl) {
+								inputOnly = false
+							}
+						}
+					}
+					leaves(ph)
+					if inputOnly {
+						continue
+					}
+				}
 				if isErrTest {
 					continue
 				}
